@@ -332,4 +332,27 @@ def oauthCallback (lower : Bytes → Bytes) (P : Policy) (now : Int) (i : CbIn) 
               let groups := if P.rules.groups ≠ [] ∧ i.group = .member then i.groupsIn else []
               (.login (mintSession P now i.host r groups) uri, "cb/login")
 
+/-! ### the proxy's CSRF cookie across one browser's history (C06, history level)
+
+`OAuthStart` sets the CSRF cookie to a fresh sealing of the flow record it also hands out as `state`; `OAuthCallback` clears it
+only after it has set a session. The callback's `csrf` input is whatever the history left in the browser's jar. -/
+
+inductive PEv where
+  | start (sid uri : String)          -- OAuthStart: CSRF cookie := seal(flow sid uri)
+  | callback (now : Int) (i : CbIn)   -- OAuthCallback; `i.csrf` is ignored, the jar is what the browser sends
+  deriving Repr
+
+def callbackWith (lower : Bytes → Bytes) (P : Policy) (jar : Sealed) (now : Int) (i : CbIn) : CbOutcome :=
+  (oauthCallback lower P now { i with csrf := jar }).1
+
+def isLogin : CbOutcome → Bool
+  | .login _ _ => true
+  | _ => false
+
+def pJarStep (lower : Bytes → Bytes) (P : Policy) (jar : Sealed) : PEv → Sealed
+  | .start sid uri => .flow sid uri
+  | .callback now i => if isLogin (callbackWith lower P jar now i) then .absent else jar
+
+def pJarOf (lower : Bytes → Bytes) (P : Policy) (evs : List PEv) : Sealed := evs.foldl (pJarStep lower P) .absent
+
 end Sso.Proxy
